@@ -1360,11 +1360,25 @@ class _TreeItems:
     def __iter__(self):
         bucket = self.firstbucket
         itertype = self.itertype
-        iterargs = self.iterargs
+        iterargs = tuple(self.iterargs)
+        iterargs += (_marker, _marker, False, False)[len(iterargs):]
+        min, max, excludemin, excludemax = iterargs
+        open_min = min is _marker or min is None
+        open_max = max is _marker or max is None
         done = 0
         # Note that we don't mind if the first bucket yields no
         # results due to an idiosyncrasy in how range searches are done.
         while bucket is not None:
+            # An exclusive *unbounded* end drops only the smallest (largest)
+            # key of the whole tree, so it applies to the first (last)
+            # bucket only, not to every bucket.
+            iterargs = (
+                min, max,
+                excludemin and not (
+                    open_min and bucket is not self.firstbucket),
+                excludemax and not (
+                    open_max and bucket._next is not None),
+            )
             for k in getattr(bucket, itertype)(*iterargs):
                 yield k
                 done = 0
